@@ -878,4 +878,19 @@ theorem splitAux_ne_nil (sep : Nat) : ∀ (s cur : Bytes) (acc : List Bytes), sp
     · simp only [h, if_false]; exact ih _ _
 
 
+theorem key_unique_of_nodup : ∀ (rows : List Row), (rows.map (·.1)).Nodup → ∀ r r', r ∈ rows → r' ∈ rows → r.1 = r'.1 → r = r' := by
+  intro rows
+  induction rows with
+  | nil => intro _ r r' h; cases h
+  | cons a as ih =>
+    intro hn r r' hr hr' he
+    simp only [List.map_cons, List.nodup_cons, List.mem_map, not_exists, not_and] at hn
+    simp only [List.mem_cons] at hr hr'
+    rcases hr with rfl | hr <;> rcases hr' with rfl | hr'
+    · rfl
+    · exact absurd he.symm (hn.1 r' hr')
+    · exact absurd he (hn.1 r hr)
+    · exact ih hn.2 r r' hr hr' he
+
+
 end PttVerif.C17
